@@ -259,7 +259,7 @@ def resolve_method(cls, name):
     c = cls
     while c:
         q = f"{CLASS_MODULE.get(c, '?')}:{c}.{name}"
-        if C.get(q):
+        if C.get(q) and not getattr(C.get(q), "impl_only", False):
             return C.get(q)
         c = CLASS_PARENTS.get(c)
     return None
@@ -497,6 +497,9 @@ class Executor:
         pass
 
     def stmt_Expr(self, node):
+        if self.contract.abstractions and ast.unparse(node.value) in self.contract.abstractions:
+            self.eval(node.value)  # an effectful comprehension whose joint effect the contract states
+            return
         if id(node) in self.loop_nodes:
             return self.exec_loop(node)
         self.eval(node.value)
@@ -714,7 +717,7 @@ class Executor:
             raise Unsupported(f"in-place mutation of a container that escaped: {ast.unparse(expr)}")
         if isinstance(expr, ast.Name):
             for n, v in self.st.env.items():
-                if v is old and n != expr.id:
+                if v is old and n != expr.id and not n.startswith("__"):  # (ghost names are not program aliases)
                     raise Unsupported(f"in-place mutation of aliased container {expr.id}/{n}")
             if expr.id in getattr(self, "param_names", ()):  # pragma: no cover
                 pass
@@ -1062,7 +1065,7 @@ class Executor:
 
     # ---- expressions ---------------------------------------------------------------
     def eval(self, node) -> V:
-        if self.contract.abstractions and isinstance(node, (ast.ListComp, ast.Call, ast.GeneratorExp, ast.SetComp)):
+        if self.contract.abstractions and isinstance(node, (ast.ListComp, ast.Call, ast.GeneratorExp, ast.SetComp, ast.Subscript)):
             src = ast.unparse(node)
             if src in self.contract.abstractions:
                 fn, note = self.contract.abstractions[src]
@@ -1200,6 +1203,8 @@ class Executor:
                     return rec["fields"][attr]
                 return VCallable(f"method:{rec['cls']}.{attr}", bound=o)
             if rec["kind"] == "solver":
+                if attr == "cost" and rec.get("rc2"):
+                    return VInt(st.fresh_const("rc2_cost", L.Int))  # (its meaning is the assumed contract of get_violated_conditional)
                 return VCallable(f"method:Solver.{attr}", bound=o)
             if rec["kind"] == "rec":
                 return VCallable(f"method:rec.{attr}", bound=o)
